@@ -178,7 +178,8 @@ func concStream(seed uint64, tier string, outDir string, props map[string]bool, 
 			}
 			refAPI[g] = runAPIProgram(ti, to, programs[g])
 		}
-		// concurrent run
+		// concurrent run, on templates of the same columns that no one has used yet: their first use is concurrent
+		ti, to = buildTemplate(inCols), buildTemplate(outCols)
 		got := make([][]concProbe, G)
 		gotAPI := make([]string, G)
 		bad := make([]string, G)
